@@ -1063,6 +1063,11 @@ func (fx *c17Fix) mutate(r *rand.Rand, orig []byte, sc *c17Scn) (c17Mut, bool) {
 	if err := json.Unmarshal(orig, &tx); err != nil {
 		return c17Mut{}, false
 	}
+	if r.Intn(12) == 0 {
+		// the exactly correct injected tx followed by more bytes: not one JSON value any more
+		tail := pick(r, "{}", "}", "0", " x", "\n{}", "null", "[]")
+		return c17Mut{name: "trailing-bytes", txs: [][]byte{append(append([]byte{}, orig...), []byte(tail)...), []byte("othertx")}}, true
+	}
 	field := r.Intn(11)
 	op := r.Intn(7)
 	name := fmt.Sprintf("f%d-op%d", field, op)
